@@ -3,7 +3,7 @@
 P=$1; V=$2; shift 2
 CHECKS=${@:-$P}
 PATCH=/verif/seeded/$P$V/patch.diff
-[ -f "$PATCH" ] || PATCH=/tmp/mut/$P/out/$V/patch.diff
+[ -f "$PATCH" ] || PATCH=${MUT:-/tmp/mut}/$P/out/$V/patch.diff
 cd /repo
 if [ -n "$(git status --porcelain)" ]; then echo "/repo not clean"; exit 2; fi
 if ! git apply "$PATCH" 2>/tmp/tryseed.err; then
